@@ -381,6 +381,7 @@ func decodeGoToSexpHelper(r interface{}, depth int, env *Zlisp, preferSym bool) 
 			}
 		}
 		hash, err := MakeHash(pairs, typeName, env)
+		panicOn(err) // e.g. a field of the wrong type: report it, do not drop the field
 		if foundzKeyOrder {
 			err = SetHashKeyOrder(hash, keyOrd)
 			panicOn(err)
